@@ -270,7 +270,7 @@ DoInputImplementation(AbstractGatewayMessageReceiver & receiver, uint32 maxBytes
                const status_t bsRet = GetBodySize(bb->GetBuffer(), bodySize);
                if (bsRet.IsOK())
                {
-                  if (bodySize <= _maxIncomingMessageSize)
+                  if ((bodySize <= _maxIncomingMessageSize)&&(WillUnsignedAddOverflow(hs, bodySize) == false))  // overflow-check so that (hs+bodySize) can't wrap around, below
                   {
                      const uint32 availableBodyBytes = (bb->GetNumBytes() > hs) ? (bb->GetNumBytes()-hs) : 0;
                      if (bodySize <= availableBodyBytes) bb->TruncateToLength(hs+bodySize);  // trim off any extra space we don't need
